@@ -263,6 +263,186 @@ def check_structure(run, ir, zm, m, nper, mask, deviation):
     _decide(run, key4, f"smooth:deviation:{zm.name}", dict(case, kind="deviation"), claims4, syms, [path, path_d])
 
 
+# ------------------------------------------------------------------------------------------
+# a model with LOG-VARIABLES (transition and measurement) and a measurement shock.  It is exactly log-linear, so the equations the
+# smoother works with are the source equations in logs; they are stated in logs below and every smoothed log-variable cell
+# EXP(affine in LOG(data)) is compared through its exponent (S.mk_log).
+# ------------------------------------------------------------------------------------------
+LOGM = zoo.ZModel(
+    "logm", ("y", "z"), ("ey", "ez"),
+    ("y = y[-1]^rho * s^(1-rho) * exp(ey)", "z = 0.5*z[-1] + 0.3*log(y) + ez"),
+    dict(rho=Fraction(4, 5), s=Fraction(2)), mvars=("oy", "oz"), mshocks=("wy",), meqs=("oy = y*exp(wy)", "oz = z + 0.5*log(y)"),
+    linear=False, logvars=("y", "oy"), tags=("backward", "logvar", "measurement"), forward=0)
+LOGM_STDS = dict(std_ey=1.0, std_ez=0.5, std_wy=0.3)
+LOGM_STEADY = {"y": 2.0, "oy": 2.0, "z": 0.6 * math.log(2.0), "oz": 1.1 * math.log(2.0)}     # closed form (the oracle's own statement)
+
+
+def _logm_model(ir):
+    import contextlib, io
+    with contextlib.redirect_stdout(io.StringIO()):
+        return fo.build_model(ir, LOGM, y=2.0, z=0.4, oy=2.0, oz=0.7, **LOGM_STDS)
+
+
+def _logm_db(ir, start, nper, mask, deviation, values=None):
+    db = ir.Databox()
+    for r, n in enumerate(LOGM.mvars):
+        vals = []
+        for t in range(nper):
+            if not mask[(r, t)]:
+                vals.append(float("nan"))
+                continue
+            if n == "oy":
+                v = (1.0 if deviation else 2.0) * (1.0 + 0.125 * t)
+            else:
+                v = (0.0 if deviation else LOGM_STEADY["oz"]) + 0.25 - 0.125 * t
+            if values is not None and f"{n}__{t}" in values:
+                v = float(values[f"{n}__{t}"])
+            vals.append(v)
+        db[n] = ir.Series(start=start, values=tuple(vals))
+    return db
+
+
+def _logm_residuals(getl, get, has, nper, mask):
+    """the four equations in logs; getl(name, t) = log of a log-variable, get(name, t) = value of anything else; has(name, t)"""
+    rho, ls = float(LOGM.params["rho"]), math.log(float(LOGM.params["s"]))
+    out = []
+    for t in range(nper):
+        if t >= 1:
+            out.append((f"eq:y@{t}", getl("y", t) - (rho * getl("y", t - 1) + (1 - rho) * ls + get("ey", t))))
+            out.append((f"eq:z@{t}", get("z", t) - (0.5 * get("z", t - 1) + 0.3 * getl("y", t) + get("ez", t))))
+        if mask[(0, t)]:
+            out.append((f"eq:oy@{t}", getl("oy", t) - (getl("y", t) + get("wy", t))))
+        if mask[(1, t)]:
+            out.append((f"eq:oz@{t}", get("oz", t) - (get("z", t) + 0.5 * getl("y", t))))
+    return out
+
+
+def check_log_model(run, ir, m, nper, mask, deviation):
+    ms = _mask_str(mask, 2, nper)
+    key = f"data+equations:logm:dev={deviation}:T={nper}:mask={ms}"
+    case = dict(kind="logm", model="logm", deviation=deviation, nper=nper, mask=ms)
+    start = ir.qq(2020, 1)
+    span = start >> (start + nper - 1)
+    db = _logm_db(ir, start, nper, mask, deviation)
+    try:
+        with kf.KalmanLift(ir, LOGM.mvars) as L, S.Path() as path:
+            out = m.kalman_filter(db, span, deviation=deviation)
+    except S.SymbolicBranchError:
+        raise
+    except Exception as exc:
+        run.counterexample(key, "smooth:raises:logm", f"kalman_filter raises {type(exc).__name__}: {str(exc)[:140]}", dict(case, values={}))
+        return
+    syms = dict(L.cap["syms"])
+    sm = out["smooth_med"]
+
+    def cell(name, t):
+        return _cell_term(kf.series_cells(sm[name], start + t, 1)[0])
+
+    def getl(name, t):
+        c = cell(name, t)
+        if c is None:
+            raise KeyError(name)
+        v = S.mk_log(c)
+        return v + S.rv(S.float_fraction(math.log(LOGM_STEADY[name]))) if deviation else v
+
+    def get(name, t):
+        c = cell(name, t)
+        if c is None:
+            raise KeyError(name)
+        if deviation and name in ("z", "oz"):
+            return c + S.rv(S.float_fraction(LOGM_STEADY[name]))
+        return c
+    claims = []
+    for r, n in enumerate(LOGM.mvars):
+        for t in range(nper):
+            if mask[(r, t)]:
+                a = cell(n, t)
+                if a is None:
+                    run.counterexample(key, "smooth:data:logm", f"smooth_med[{n}] missing at observed period {t}", dict(case, values={}))
+                    return
+                claims.append((f"data:{n}@{t}", a - z3.Real(f"{n}__{t}")))
+    try:
+        claims += _logm_residuals(getl, get, None, nper, mask)
+    except KeyError as exc:
+        run.counterexample(key, "smooth:data:logm", f"smooth_med cell missing: {exc}", dict(case, values={}))
+        return
+    dom = []
+    for n, sy in syms.items():
+        if n.startswith("oy__"):
+            dom.append(z3.And(sy.t >= Fraction(1, 4), sy.t <= 4))
+        else:
+            dom.append(z3.And(sy.t >= -1, sy.t <= 2))
+    logb = [z3.And(S.LOG(sy.t) >= -Fraction(7, 5), S.LOG(sy.t) <= Fraction(7, 5)) for n, sy in syms.items() if n.startswith("oy__")]
+    assume = dom + logb + [path.condition()]
+    r0, _ = run.check_sat(assume, timeout_ms=30000)
+    if r0 != "sat":
+        run.unknown(key, f"reachability witness {r0}")
+        return
+    run.reach_ok += 1
+    terms = [c for _, c in claims]
+    viol = z3.Or(*[z3.Or(c > TOL, c < -TOL) for c in terms])
+    r, mdl = run.check_sat(assume + [viol], timeout_ms=180000)
+    if r == "unsat":
+        if len(run.samples) < 12:
+            run.samples.append({"obligation": key, "verdict": "unsat: data reproduced and the four equations hold in logs (1e-8) for all positive oy in [1/4,4], oz in [-1,2]",
+                                "claims": len(claims), "example": f"{claims[-1][0]}: {str(z3.simplify(claims[-1][1]))[:180]}"})
+        run.ok(key)
+    elif r == "sat":
+        big = z3.Or(*[z3.Or(c > Fraction(1, 1000), c < -Fraction(1, 1000)) for c in terms])
+        rb, mb = run.check_sat(assume + [big], timeout_ms=60000)
+        if rb == "sat":
+            mdl = mb
+        vals = model_values(mdl, sorted(syms))
+        bad = []
+        for labl, c in claims:
+            try:
+                d = mdl.eval(c, model_completion=True)
+                fv = Fraction(d.numerator_as_long(), d.denominator_as_long())
+                if abs(fv) > TOL:
+                    bad.append((labl, float(fv)))
+            except Exception:
+                pass
+        run.counterexample(key, "smooth:equations:logm", f"violated: {bad[:4]}", dict(case, bad=bad[:6], values={n: [v.numerator, v.denominator] for n, v in vals.items()}))
+    else:
+        run.unknown(key, f"solver {r}")
+
+
+def _logm_replay(ir, case, vals):
+    nper, deviation = case["nper"], case["deviation"]
+    rows = case["mask"].split("/")
+    mask = {(r, t): rows[r][t] == "o" for r in range(2) for t in range(nper)}
+    m = _logm_model(ir)
+    start = ir.qq(2020, 1)
+    span = start >> (start + nper - 1)
+    db = _logm_db(ir, start, nper, mask, deviation, values=vals)
+    try:
+        out = m.kalman_filter(db, span, deviation=deviation)
+    except Exception as exc:
+        return True, f"kalman_filter raises {type(exc).__name__}: {exc}"
+    sm = out["smooth_med"]
+
+    def g(n, t):
+        s_ = sm[n]
+        per = start + t
+        if s_.start is None or per < s_.start or per > s_.end:
+            return float("nan")
+        return float(np.asarray(s_.get_data(per)).reshape(-1)[0])
+    getl = lambda n, t: math.log(g(n, t)) + (math.log(LOGM_STEADY[n]) if deviation else 0.0)
+    get = lambda n, t: g(n, t) + (LOGM_STEADY[n] if deviation and n in ("z", "oz") else 0.0)
+    worst, msg = 0.0, "all claims hold"
+    for r, n in enumerate(LOGM.mvars):
+        for t in range(nper):
+            if mask[(r, t)]:
+                dd = abs(g(n, t) - float(np.asarray(db[n].get_data(start + t)).reshape(-1)[0]))
+                if not dd <= worst:
+                    worst, msg = (dd if dd == dd else float("inf")), f"data:{n}@{t}"
+    for labl, rres in _logm_residuals(getl, get, None, nper, mask):
+        if not abs(rres) <= worst:
+            worst, msg = (abs(rres) if rres == rres else float("inf")), f"{labl}: log residual {rres!r}"
+    return worst > 1e-6, msg
+
+
+
 def main(run):
     ir = load_irispie()
     run.extra["proxy_selftest_checks"] = npproxy.selftest()
@@ -274,13 +454,14 @@ def main(run):
     ]
     run.bounds["structures"] = ("zoo models with a measurement block (nk3, ar2m, ur_drift with a unit root under fixed_unknown; pc_const in thorough); deviation in {True,False}; T=3 periods; "
                                 f"missing-data masks: {'5 representative masks' if run.tier == 'quick' else 'every non-empty mask'} per model; stds fixed")
+    run.bounds["log_model"] = "logm: log transition variable y, log measurement variable oy with a measurement shock, z and oz in levels; same masks; deviation in {True,False}; oy in [1/4,4]"
     run.bounds["values"] = "every observed cell an independent real in [-1,1]; tolerance 1e-8 (gains computed by float LAPACK)"
     run.stubs += ["numpy.linalg.inv/det applied to concrete (data-independent) covariance matrices through ground-concretising shims",
                   "fords.kalmans.Dataslate wrapped: measurement rows symbolised, output slates object-dtype"]
     run.assumptions += ["cells are mathematical reals; float-born coefficients read exactly", "stds and parameters concrete",
                         "equations are asserted only where every operand is present in smooth_med"]
     run.stubs.append("numpy.linalg.lstsq(A concrete, b symbolic) -> pinv(A) @ b (fixed_unknown initial condition of unit-root models)")
-    run.outside += ["deviation mode and approx_diffuse for unit-root models", "time-varying stds", "log measurement/transition variables", "spans longer than 3 periods"]
+    run.outside += ["deviation mode and approx_diffuse for unit-root models", "time-varying stds", "log-variables beyond the exactly log-linear model logm (data reproduced and equations in logs; no re-simulation leg)", "spans longer than 3 periods"]
     models = ("nk3", "ar2m", "ur_drift") if run.tier == "quick" else ("nk3", "ar2m", "pc_const", "ur_drift")
     nper = 3
     for name in models:
@@ -293,11 +474,22 @@ def main(run):
                     run.unknown(f"{zm.name}:{_mask_str(mask, len(zm.mvars), nper)}:dev={deviation}", exc)
                 except Exception as exc:
                     run.error(f"{zm.name}:{_mask_str(mask, len(zm.mvars), nper)}:dev={deviation}", exc)
+    mlog = _logm_model(ir)
+    for mask in _masks(2, nper, run.tier):
+        for deviation in (False, True):
+            try:
+                check_log_model(run, ir, mlog, nper, mask, deviation)
+            except S.SymbolicBranchError as exc:
+                run.unknown(f"logm:{_mask_str(mask, 2, nper)}:dev={deviation}", exc)
+            except Exception as exc:
+                run.error(f"logm:{_mask_str(mask, 2, nper)}:dev={deviation}", exc)
     run.extra["exhaustive"] = True
 
 
 def replay(case):
     ir = load_irispie()
+    if case.get("kind") == "logm":
+        return _logm_replay(ir, case, {k: float(Fraction(a, b)) for k, (a, b) in case.get("values", {}).items()})
     zm, m = _model(ir, case["model"])
     nper, deviation = case["nper"], case["deviation"]
     rows = case["mask"].split("/")
